@@ -70,7 +70,13 @@ def stale_loop_variables(fn):
         if any(b in enclosing_loops for b in binders):
             # bound by an enclosing loop -- but the use must be in its body/orelse, not in its iter
             continue
-        # used inside some loop, bound only by loops that do not enclose the use
+        # used inside some loop, bound only by loops that do not enclose the use.  A binder that sits inside one of the
+        # loops enclosing the use runs again on every iteration before the use (the search-then-use idiom with break):
+        # that is not stale.
+        def inside(b, lp):
+            return any(x is b for x in ast.walk(lp)) and b is not lp
+        if any(inside(b, lp) for b in binders for lp in enclosing_loops):
+            continue
         if all(b.end_lineno < n.lineno for b in binders):
             yield n, n.id, enclosing_loops[0]
 
